@@ -2104,6 +2104,418 @@ def k_find_extreme(E, tier):
     return rec
 
 
+# ------------------------------------------------------------------ C04 / C39: file lookup
+
+def _result_models():
+    """Result::map / map_err on concrete Ok/Err aggregates (the payload is wrapped, the variant is kept)."""
+    def m_map(ex, st, c, a, d):
+        x = a[0]
+        if isinstance(x, sym.Agg) and x.variant == "Ok":
+            return sym.Agg(d, "Ok", {"0": sym.Agg("mapped", "MAPPED", {"0": x.fields["0"]})}, 0)
+        if isinstance(x, sym.Agg) and x.variant == "Err":
+            return x
+        return None
+
+    def m_map_err(ex, st, c, a, d):
+        x = a[0]
+        if isinstance(x, sym.Agg) and x.variant == "Err":
+            return sym.Agg(d, "Err", {"0": sym.Agg("mapped", "MAPPED", {"0": x.fields["0"]})}, 1)
+        if isinstance(x, sym.Agg) and x.variant == "Ok":
+            return x
+        return None
+
+    return [(r"^std::result::Result::<.*>::map::<", m_map), (r"^std::result::Result::<.*>::map_err::<", m_map_err)]
+
+
+def _payload_contains(v, target, depth=0):
+    """does the (nested) aggregate v carry `target` somewhere inside (through Err/MAPPED/tuple wrappers)?"""
+    if v is target:
+        return True
+    if isinstance(v, sym.Agg) and depth < 6:
+        return any(_payload_contains(x, target, depth + 1) for x in v.fields.values())
+    return False
+
+
+def _no_logging(ctx):
+    """tracing macros: the level test is false, i.e. logging has an empty body (it is not the subject)"""
+    return [(r"^<Level as PartialOrd<LevelFilter>>::le$", lambda ex, st, c, a, d: sym.mk_bool("false"))]
+
+
+def k_do_find_file(E, tier):
+    """C04/C39: Context::do_find_file asks the loader for the candidate names in table order, returns the first
+    that exists together with its name, stops at the first loader error and returns that error, and gives
+    None only when every candidate is absent.  A URL with an explicit .css/.sass/.scss extension is looked
+    up as it is (one call)."""
+    f = E.find(name_re=r"^input::context::<impl at .*>::do_find_file$")
+    rec = Rec("Context::do_find_file", f, E)
+    ctx = E.ctx()
+    me = sym.Opaque("Context<AnyLoader>", "self", ctx)
+    url = sym.Opaque("&str", "url", ctx)
+    names = sym.Opaque("&[&dyn Fn]", "names", ctx)
+    cands, errs, files = [], [], []
+
+    def full(ex, st, x):
+        while isinstance(x, sym.Ref):
+            x = ex.deref(st, x)
+        return x
+
+    def m_ends(ex, st, c, a, d):
+        b = ctx.fresh_scalar("bool", "ends_with")
+        st.events.append(sym.Event("ends_with", a, b, len(st.pc)))
+        return b
+
+    def m_next(ex, st, c, a, d):
+        n = sum(1 for e in st.events if e.callee == "next-some")
+        if n >= 3:
+            st.events.append(sym.Event("cut", [], None, len(st.pc)))
+            return sym.Agg(d, "None", {}, 0)
+        while len(cands) <= n:
+            cands.append(sym.Opaque("String", "candidate%d" % len(cands), ctx))
+        some, none = st.fork(), st.fork()
+        some.events.append(sym.Event("next-some", [], None, len(st.pc)))
+        none.events.append(sym.Event("next-none", [], None, len(st.pc)))
+        return [(some, sym.Agg(d, "Some", {"0": cands[n]}, 1)), (none, sym.Agg(d, "None", {}, 0))]
+
+    def m_loader(ex, st, c, a, d):
+        k = sum(1 for e in st.events if e.callee == "loader")
+        while len(errs) <= k:
+            errs.append(sym.Opaque("LoadError", "err%d" % len(errs), ctx))
+            files.append(sym.Opaque("File", "file%d" % len(files), ctx))
+        out = []
+        for kind, val in (("err", sym.Agg(d, "Err", {"0": errs[k]}, 1)), ("none", sym.Agg(d, "Ok", {"0": sym.Agg("Option", "None", {}, 0)}, 0)),
+                          ("some", sym.Agg(d, "Ok", {"0": sym.Agg("Option", "Some", {"0": files[k]}, 1)}, 0))):
+            s2 = st.fork()
+            e = sym.Event("loader", a, kind, len(st.pc))
+            e.rargs = [full(ex, st, x) for x in a]
+            s2.events.append(e)
+            out.append((s2, val))
+        return out
+
+    ident = lambda ex, st, c, a, d: a[0]
+    models = [
+        (r"^core::str::<impl str>::ends_with::<&str>$", m_ends),
+        (r"^<AnyLoader as Loader>::find_file$", m_loader),
+        (r"^core::slice::<impl \[&dyn .*\]>::iter$", lambda ex, st, c, a, d: sym.Opaque("iter", "iter", ctx)),
+        (r"as Iterator>::map::<String", ident), (r"^<std::iter::Map<.*> as IntoIterator>::into_iter$", ident),
+        (r"^<std::iter::Map<.*> as Iterator>::next$", m_next),
+        (r"^<String as Deref>::deref$", lambda ex, st, c, a, d: sym.Ref("val", full(ex, st, a[0]))),
+    ] + _result_models() + BASE_MODELS
+    ex = sym.Executor(ctx, models=models, unroll=6, feasibility=E.feasibility(ctx))
+    paths = [p for p in ex.run(f, [sym.Ref("val", me), url, names]) if p.status == "return"]
+    rec.paths = len(paths)
+    seen = set()
+    for i, p in enumerate(paths):
+        if any(e.callee == "cut" for e in p.events):
+            continue
+        calls = [e for e in p.events if e.callee == "loader"]
+        looped = any(e.callee in ("next-some", "next-none") for e in p.events)
+        ret = p.ret
+        if not (isinstance(ret, sym.Agg) and ret.variant in ("Ok", "Err")):
+            rec.add("path %d: Ok or Err is returned (shape not recognised)" % i, {"verdict": "inconclusive", "per_solver": {"structural": repr(ret)[:50]}, "time_s": 0})
+            continue
+        if not looped:
+            ok = len(calls) == 1 and calls[0].rargs[1] is url
+            if ok and calls[0].result == "err":
+                ok = ret.variant == "Err" and _payload_contains(ret, errs[0])
+            elif ok and calls[0].result == "some":
+                ok = ret.variant == "Ok" and _payload_contains(ret, files[0])
+            elif ok:
+                ok = ret.variant == "Ok" and not _payload_contains(ret, files[0])
+            ext = [e for e in p.events if e.callee == "ends_with"]
+            r = E.decide(ctx, p.pc + ["(not (or false %s))" % " ".join(e.result.term for e in ext)]) if ext else {"verdict": "violated", "per_solver": {}, "time_s": 0}
+            rec.add("path %d [direct/%s]: a URL with an explicit extension is asked for as it is, once, and the loader's answer (error included) is the result"
+                    % (i, calls[0].result if calls else "-"), r if ok else {"verdict": "violated", "per_solver": {"structural": "event identity"}, "time_s": 0})
+            seen.add("direct-" + (calls[0].result if calls else "-"))
+            continue
+        n = sum(1 for e in p.events if e.callee == "next-some")
+        order = len(calls) <= n and all(calls[k].rargs[1] is cands[k] for k in range(len(calls)))
+        early = all(c_.result == "none" for c_ in calls[:-1])
+        tag = "loop/%d/%s" % (n, calls[-1].result if calls else "exhausted")
+        if not (order and early):
+            rec.add("path %d [%s]: candidate k is looked up k-th, and nothing is looked up after an error or a hit" % (i, tag),
+                    {"verdict": "violated", "per_solver": {"structural": "event identity"}, "time_s": 0})
+            continue
+        last = calls[-1].result if calls else "none"
+        k = len(calls) - 1
+        if last == "err":
+            ok = ret.variant == "Err" and _payload_contains(ret, errs[k])
+            what = "a loader error ends the search and is returned"
+        elif last == "some":
+            pay = ret.fields["0"] if ret.variant == "Ok" else None
+            ok = (isinstance(pay, sym.Agg) and pay.variant == "Some" and _payload_contains(pay, files[k]) and _payload_contains(pay, cands[k])
+                  and not any(_payload_contains(pay, cands[j]) for j in range(len(cands)) if j != k))
+            what = "the first existing candidate is returned with its own name"
+        else:
+            pay = ret.fields["0"] if ret.variant == "Ok" else None
+            ok = isinstance(pay, sym.Agg) and pay.variant == "None" and len(calls) == n and any(e.callee == "next-none" for e in p.events)
+            what = "None only after every candidate was looked up and found absent"
+        rec.add("path %d [%s]: %s" % (i, tag, what), {"verdict": "holds" if ok else "violated", "per_solver": {"structural": "event identity"}, "time_s": 0})
+        seen.add("loop-" + last)
+    need = {"direct-err", "direct-some", "direct-none", "loop-err", "loop-some", "loop-none"}
+    if not need <= seen:
+        rec.add("all outcome kinds explored (%s missing)" % sorted(need - seen), {"verdict": "inconclusive", "per_solver": {}, "time_s": 0})
+    rec.notes.append("0..3 candidates (loop unrolled 3 times); the loader is a nondeterministic stub returning Err / Ok(None) / Ok(Some)")
+    return rec
+
+
+_TEMPLATES_USE = ["{base}{name}.scss", "{base}_{name}.scss", "{base}{name}/index.scss", "{base}{name}/_index.scss", "{base}{name}.css", "{base}_{name}.css"]
+_TEMPLATES_IMPORT = ["{base}{name}.import.scss", "{base}_{name}.import.scss", "{base}{name}.scss", "{base}_{name}.scss",
+                     "{base}{name}/index.import.scss", "{base}{name}/_index.import.scss", "{base}{name}/index.scss", "{base}{name}/_index.scss",
+                     "{base}{name}.css", "{base}_{name}.css"]
+
+
+def _decode_template(func):
+    """format template of a `|base, name| format!(..)` closure, from the byte-encoded template constant in its MIR"""
+    src = func.source()
+    m = re.search(r'const b"((?:[^"\\]|\\.)*)";', src)
+    if not m or len(re.findall(r"new_display::<&str>", src)) != 2:
+        return None
+    raw = bytes(m.group(1), "latin-1").decode("unicode_escape").encode("latin-1")
+    # argument order: the tuple handed to the formatter is (&base, &name) = (&_2, &_3)
+    t = re.search(r"_\d+ = \(move (_\d+), move (_\d+)\);", src)
+    if not t:
+        return None
+    refs = {}
+    for loc in t.groups():
+        mm = re.search(r"%s = &(_\d+);" % loc, src)
+        if not mm:
+            return None
+        refs[loc] = {"_2": "{base}", "_3": "{name}"}.get(mm.group(1))
+    argnames = [refs[t.group(1)], refs[t.group(2)]]
+    if None in argnames:
+        return None
+    out, i, nxt = "", 0, 0
+    while i < len(raw):
+        b = raw[i]
+        if b == 0:
+            break
+        if b == 0xC0:
+            if nxt >= 2:
+                return None
+            out += argnames[nxt]
+            nxt += 1
+            i += 1
+        elif b < 0x80:
+            out += raw[i + 1:i + 1 + b].decode("latin-1")
+            i += 1 + b
+        else:
+            return None
+    return out
+
+
+def k_find_file(E, tier):
+    """C04/C39: Context::find_file: (a) the two candidate tables, read from the compiled closures, are the
+    documented lists in the documented order, the import table for @import and the other for @use/@forward;
+    (b) a failure of the lookup, of reading the file, or of the loop lock makes find_file return an error —
+    Ok(Some(file)) only when all three succeeded, Ok(None) only when nothing was found."""
+    f = E.find(name_re=r"^input::context::<impl at .*>::find_file$")
+    rec = Rec("Context::find_file", f, E)
+    # (a) the tables
+    for idx, want, what in ((0, _TEMPLATES_IMPORT, "@import"), (1, _TEMPLATES_USE, "@use/@forward")):
+        pname = "%s::promoted[%d]" % (f.name, idx)
+        pf = [g for g in E.funcs if g.name == pname]
+        got = None
+        if len(pf) == 1:
+            spans = re.findall(r"_\d+ = \{closure@([^}]+)\};", pf[0].source())
+            arr = re.search(r"_1 = \[(.*)\];", pf[0].source())
+            got = []
+            for sp in spans:
+                cl = [g for g in E.funcs if g.name.startswith(f.name + "::{closure#") and ("{closure@%s}" % sp) in g.text[0]]
+                got.append(_decode_template(cl[0]) if len(cl) == 1 else None)
+            if arr is None or len(sym.split_top(arr.group(1))) != len(spans):
+                got = None
+        if got is None or None in got:
+            rec.add("%s candidate table could be read from the compiled closures (shape not recognised)" % what, {"verdict": "inconclusive", "per_solver": {"structural": repr(got)[:80]}, "time_s": 0})
+        else:
+            rec.add("%s candidates are %s, in this order" % (what, ", ".join(t.replace("{base}", "").replace("{name}", "u") for t in want)),
+                    {"verdict": "holds" if got == want else "violated", "per_solver": {"structural": "table read from MIR: %s" % got}, "time_s": 0})
+    # (b) propagation
+    ctx = E.ctx()
+    me = sym.Opaque("Context<AnyLoader>", "self", ctx)
+    url = sym.Opaque("&str", "url", ctx)
+    frm = sym.Opaque("SourceKind", "from", ctx)
+    e1, e2, e3 = (sym.Opaque("Error", n, ctx) for n in ("lookup-error", "read-error", "loop-error"))
+    found = sym.Agg("tuple", None, {"0": sym.Opaque("String", "path", ctx), "1": sym.Opaque("File", "file", ctx)})
+    sf = sym.Opaque("SourceFile", "sourcefile", ctx)
+    imp = ctx.fresh_scalar("bool", "is_import")
+
+    def fork(name, outcomes):
+        def m(ex, st, c, a, d):
+            out = []
+            for kind, val in outcomes(d):
+                s2 = st.fork()
+                e = sym.Event(name, a, kind, len(st.pc))
+                e.rargs = [ex.resolve_ref(st, x) for x in a]
+                s2.events.append(e)
+                out.append((s2, val))
+            return out
+        return m
+
+    models = [
+        (r"^SourceKind::is_import$", lambda ex, st, c, a, d: imp),
+        (r"::do_find_file$", fork("lookup", lambda d: [("err", sym.Agg(d, "Err", {"0": e1}, 1)), ("none", sym.Agg(d, "Ok", {"0": sym.Agg("Option", "None", {}, 0)}, 0)),
+                                                       ("some", sym.Agg(d, "Ok", {"0": sym.Agg("Option", "Some", {"0": found}, 1)}, 0))])),
+        (r"^SourceFile::read::<", fork("read", lambda d: [("err", sym.Agg(d, "Err", {"0": e2}, 1)), ("ok", sym.Agg(d, "Ok", {"0": sf}, 0))])),
+        (r"::lock_loading$", fork("lock", lambda d: [("err", sym.Agg(d, "Err", {"0": e3}, 1)), ("ok", sym.Agg(d, "Ok", {"0": sym.Unit()}, 0))])),
+        (r"::promoted\[\d+\]$", None),
+    ] + _no_logging(ctx) + BASE_MODELS
+    models = [m for m in models if m[1] is not None]
+    ex = sym.Executor(ctx, models=models, feasibility=E.feasibility(ctx))
+    paths = [p for p in ex.run(f, [sym.Ref("val", me), url, frm]) if p.status == "return"]
+    rec.paths = len(paths)
+    seen = set()
+    for i, p in enumerate(paths):
+        ev = {e.callee: e for e in p.events if e.callee in ("lookup", "read", "lock")}
+        ret = p.ret
+        if not (isinstance(ret, sym.Agg) and ret.variant in ("Ok", "Err")) or "lookup" not in ev:
+            rec.add("path %d: one lookup and an Ok/Err result (shape not recognised)" % i, {"verdict": "inconclusive", "per_solver": {}, "time_s": 0})
+            continue
+        lk, rd, lo = ev["lookup"].result, ev.get("read") and ev["read"].result, ev.get("lock") and ev["lock"].result
+        tag = "%s/%s/%s" % (lk, rd or "-", lo or "-")
+        seen.add(tag)
+        if lk == "err":
+            ok = ret.variant == "Err" and _payload_contains(ret, e1) and rd is None and lo is None
+            what = "a lookup failure is returned as an error, nothing is read"
+        elif lk == "none":
+            ok = ret.variant == "Ok" and isinstance(ret.fields["0"], sym.Agg) and ret.fields["0"].variant == "None" and rd is None and lo is None
+            what = "nothing found gives Ok(None)"
+        elif rd == "err":
+            ok = ret.variant == "Err" and _payload_contains(ret, e2) and lo is None
+            what = "a read failure is returned as an error"
+        elif rd == "ok" and lo == "err":
+            ok = ret.variant == "Err" and _payload_contains(ret, e3)
+            what = "a loop detected by the lock is returned as an error"
+        elif rd == "ok" and lo == "ok":
+            ok = (ret.variant == "Ok" and isinstance(ret.fields["0"], sym.Agg) and ret.fields["0"].variant == "Some" and ret.fields["0"].fields["0"] is sf
+                  and ev["lock"].rargs[1] is sf and ev["read"].rargs[0] is found.fields["1"])
+            what = "Ok(Some(file)) is the file that was read from the handle that was found, and it was locked"
+        else:
+            rec.add("path %d [%s]: outcome combination not recognised" % (i, tag), {"verdict": "inconclusive", "per_solver": {}, "time_s": 0})
+            continue
+        rec.add("path %d [%s]: %s" % (i, tag, what), {"verdict": "holds" if ok else "violated", "per_solver": {"structural": "event identity"}, "time_s": 0})
+        # which table is handed to the lookup: the 10-entry import table exactly for an @import
+        tbl = ev["lookup"].rargs[2] if len(ev["lookup"].rargs) > 2 else None
+        n_tbl = len(tbl.fields) if isinstance(tbl, sym.Agg) else None
+        if n_tbl in (len(_TEMPLATES_IMPORT), len(_TEMPLATES_USE)):
+            want_imp = imp.term if n_tbl == len(_TEMPLATES_IMPORT) else "(not %s)" % imp.term
+            r = E.decide(ctx, p.pc + ["(not %s)" % want_imp])
+            rec.add("path %d [%s]: the %d-entry table is used exactly for %s" % (i, tag, n_tbl, "@import" if n_tbl == len(_TEMPLATES_IMPORT) else "@use/@forward"), r)
+        else:
+            rec.add("path %d [%s]: one of the two candidate tables is handed to the lookup (shape not recognised)" % (i, tag),
+                    {"verdict": "inconclusive", "per_solver": {"structural": repr(tbl)[:60]}, "time_s": 0})
+    need = {"err/-/-", "none/-/-", "some/err/-", "some/ok/err", "some/ok/ok"}
+    if not need <= seen:
+        rec.add("all outcome combinations explored (%s missing)" % sorted(need - seen), {"verdict": "inconclusive", "per_solver": {}, "time_s": 0})
+    rec.notes.append("do_find_file, SourceFile::read and lock_loading are nondeterministic stubs (every Ok/Err outcome); tracing is disabled")
+    return rec
+
+
+def k_fsloader_find(E, tier):
+    """C04/C39: FsLoader::find_file tries the load paths in order and opens the first one where the file
+    exists; a failure to open it is an error (not `not found`), and an empty URL finds nothing."""
+    f = E.find(name_re=r"^fsloader::<impl at .*>::find_file$")
+    rec = Rec("FsLoader::find_file", f, E)
+    ctx = E.ctx()
+    me = sym.Opaque("FsLoader", "self", ctx)
+    url = sym.Opaque("&str", "url", ctx)
+    bases, joined, ioerr, handle = [], [], sym.Opaque("std::io::Error", "io-error", ctx), sym.Opaque("File", "handle", ctx)
+    empty = ctx.fresh_scalar("bool", "url_is_empty")
+
+    def full(ex, st, x):
+        while isinstance(x, sym.Ref):
+            x = ex.deref(st, x)
+        return x
+
+    def m_next(ex, st, c, a, d):
+        n = sum(1 for e in st.events if e.callee == "next-some")
+        if n >= 3:
+            st.events.append(sym.Event("cut", [], None, len(st.pc)))
+            return sym.Agg(d, "None", {}, 0)
+        while len(bases) <= n:
+            bases.append(sym.Opaque("PathBuf", "loadpath%d" % len(bases), ctx))
+            joined.append(sym.Opaque("PathBuf", "loadpath%d/url" % len(joined), ctx))
+        some, none = st.fork(), st.fork()
+        some.events.append(sym.Event("next-some", [], None, len(st.pc)))
+        none.events.append(sym.Event("next-none", [], None, len(st.pc)))
+        return [(some, sym.Agg(d, "Some", {"0": sym.Ref("val", bases[n])}, 1)), (none, sym.Agg(d, "None", {}, 0))]
+
+    def m_join(ex, st, c, a, d):
+        b = full(ex, st, a[0])
+        k = [i for i, x in enumerate(bases) if x is b]
+        e = sym.Event("join", a, None, len(st.pc))
+        e.rargs = [b, full(ex, st, a[1])]
+        st.events.append(e)
+        return joined[k[0]] if k and e.rargs[1] is url else sym.Opaque("PathBuf", "other-path", ctx)
+
+    def m_is_file(ex, st, c, a, d):
+        yes, no = st.fork(), st.fork()
+        for s2, r in ((yes, True), (no, False)):
+            e = sym.Event("is_file", a, r, len(st.pc))
+            e.rargs = [full(ex, st, a[0])]
+            s2.events.append(e)
+        return [(yes, sym.mk_bool("true")), (no, sym.mk_bool("false"))]
+
+    def m_open(ex, st, c, a, d):
+        ok, err = st.fork(), st.fork()
+        for s2, r in ((ok, "ok"), (err, "err")):
+            e = sym.Event("open", a, r, len(st.pc))
+            e.rargs = [full(ex, st, a[0])]
+            s2.events.append(e)
+        return [(ok, sym.Agg(d, "Ok", {"0": handle}, 0)), (err, sym.Agg(d, "Err", {"0": ioerr}, 1))]
+
+    deref = lambda ex, st, c, a, d: sym.Ref("val", full(ex, st, a[0]))
+    models = [
+        (r"^core::str::<impl str>::is_empty$", lambda ex, st, c, a, d: empty),
+        (r"^<&Vec<PathBuf> as IntoIterator>::into_iter$", lambda ex, st, c, a, d: sym.Opaque("iter", "iter", ctx)),
+        (r"^<std::slice::Iter<'_, PathBuf> as Iterator>::next$", m_next),
+        (r"^<PathBuf as Deref>::deref$", deref), (r"^Path::join::<&str>$", m_join), (r"^Path::is_file$", m_is_file), (r"^File::open::<", m_open),
+    ] + _no_logging(ctx) + _result_models() + BASE_MODELS
+    ex = sym.Executor(ctx, models=models, unroll=6, feasibility=E.feasibility(ctx))
+    paths = [p for p in ex.run(f, [sym.Ref("val", me), url]) if p.status == "return"]
+    rec.paths = len(paths)
+    seen = set()
+    for i, p in enumerate(paths):
+        if any(e.callee == "cut" for e in p.events):
+            continue
+        tests = [e for e in p.events if e.callee == "is_file"]
+        opens = [e for e in p.events if e.callee == "open"]
+        ret = p.ret
+        if not (isinstance(ret, sym.Agg) and ret.variant in ("Ok", "Err")):
+            rec.add("path %d: Ok/Err result (shape not recognised)" % i, {"verdict": "inconclusive", "per_solver": {}, "time_s": 0})
+            continue
+        order = all(tests[k].rargs[0] is joined[k] for k in range(len(tests))) and all(t.result is False for t in tests[:-1])
+        if not order or len(opens) > 1:
+            rec.add("path %d: load path k joined with the URL is tested k-th, nothing is tested after a hit" % i, {"verdict": "violated", "per_solver": {"structural": "event identity"}, "time_s": 0})
+            continue
+        hit = bool(tests) and tests[-1].result is True
+        if hit:
+            k = len(tests) - 1
+            good = len(opens) == 1 and opens[0].rargs[0] is joined[k]
+            if good and opens[0].result == "ok":
+                good = ret.variant == "Ok" and _payload_contains(ret, handle)
+                kind = "opened"
+            elif good:
+                good = ret.variant == "Err" and _payload_contains(ret, ioerr)
+                kind = "open-error"
+            else:
+                kind = "?"
+            rec.add("path %d [%d load path(s), %s]: the first existing file is opened; %s" % (i, len(tests), kind, "its handle is returned" if kind == "opened" else "the I/O error is returned as an error"),
+                    {"verdict": "holds" if good else "violated", "per_solver": {"structural": "event identity"}, "time_s": 0})
+            seen.add(kind)
+        else:
+            pay = ret.fields["0"] if ret.variant == "Ok" else None
+            good = isinstance(pay, sym.Agg) and pay.variant == "None" and not opens
+            if good and not tests:
+                pass
+            rec.add("path %d [%d load path(s), none exists]: Ok(None), nothing opened" % (i, len(tests)),
+                    {"verdict": "holds" if good else "violated", "per_solver": {"structural": "path shape"}, "time_s": 0})
+            seen.add("none")
+    if not {"opened", "open-error", "none"} <= seen:
+        rec.add("all outcome kinds explored (%s)" % sorted(seen), {"verdict": "inconclusive", "per_solver": {}, "time_s": 0})
+    rec.notes.append("0..3 load paths; Path::is_file and File::open are nondeterministic stubs; tracing disabled")
+    return rec
+
+
 def k_value_eq_symmetric(E, tier):
     """C12: css::Value::eq is symmetric as a function of the two values' kinds and of the (symmetric)
     comparisons of their parts: eq(a,b) and eq(b,a) are executed symbolically and must be the same
